@@ -103,6 +103,14 @@ def check_prox(ctx, f, sp, sigma, x, comp, cfg, rng, tags, P=None):
             for z in allz[1:]:
                 zall = zall + z * (1.0 / len(allz))
             cands.extend(p + t * (zall - p) for t in (1e-13, 1e-12, 1e-11, 1e-10))
+            # a constraint set far from the origin in some coordinate binds at the same (one-ulp-off) bound for all of the
+            # inputs above; images of far-away inputs in opposite directions lie on opposite sides of the set, their
+            # midpoint is strictly inside in every coordinate in which the set has an extent
+            big = 1e3 * (1.0 + p.norm())
+            for k in range(3):
+                dvec = sp.one() if k == 0 else functab.rand_el(sp, rng, 1.0)
+                mid = 0.5 * (P(big * dvec) + P(-big * dvec))
+                cands.extend(p + t * (mid - p) for t in (1e-13, 1e-12, 1e-11, 1e-10))
             for q in cands:
                 if np.isfinite(f(q)) and (q - p).norm() <= 1e-9 * max(1.0, p.norm()):
                     near = True
